@@ -39,6 +39,16 @@ theorem pulled_sublist_accepted {size : Nat} (h : 0 < size) (ops : List (Op α))
   have e : (abs (new (α := α) size)).items = [] := by rw [abs_new h]; rfl
   rwa [e, List.nil_append] at this
 
+/-- **accounting** for any operation sequence (Close / Reset anywhere): every accepted item is —
+exactly once — pulled, or discarded by a Close / Reset, or still held -/
+theorem accounting {size : Nat} (h : 0 < size) (ops : List (Op α)) :
+    (accepted ops (run (new size) ops).2).Perm
+      (pulled (run (new size) ops).2 ++
+        (Fifo.discarded (Fifo.new size) ops ++ absItems (run (new size) ops).1)) := by
+  have := Fifo.accounting (Fifo.new (α := α) size) ops
+  rw [run_new_refines h] at this
+  simpa [Fifo.new, abs] using this
+
 /-- **each accepted item is pulled at most once**: if the offered items are pairwise distinct, so
 are the pulled ones (and every pulled item was offered and accepted) -/
 theorem executed_at_most_once {size : Nat} (h : 0 < size) (ops : List (Op α)) (hd : (pushes ops).Nodup) :
